@@ -19,6 +19,16 @@ COMPRESSIONS = [False, True, zipfile.ZIP_STORED, zipfile.ZIP_DEFLATED, zipfile.Z
 TMP = H.WORK / f"c05_{os.getpid()}"
 
 
+def _cleanup():
+    import shutil
+    shutil.rmtree(TMP, ignore_errors=True)
+
+
+import atexit  # noqa: E402
+
+atexit.register(_cleanup)
+
+
 def canon(root):
     """what must not depend on any storage option: shape, order, rebuilt data, kinds,
     stable data_ids, clone partition"""
@@ -43,7 +53,7 @@ class Prop:
     rule = ("plain and typed trees: every ordered forest with <= N nodes (N=4 quick, 5 thorough) x label patterns with repeats (clones at "
             "every relative position incl. below a sibling of the first occurrence and nested below it; clones of differing kind) x explicit "
             "ids x str/unicode/value-hashed/identity-hashed/int/tuple/dataclass/DictWrapper data, plus seeded random trees up to 12 nodes.  "
-            "One case = one tree x one (key_map, value_map) in {default, off, custom}^2 (thorough tier: three pairs per tree, all nine for every fifth tree) x mapper "
+            "One case = one tree x one (key_map, value_map) in {default, off, custom}^2 (quick tier: two pairs per tree; thorough tier: three pairs per tree, all nine for every fifth tree) x mapper "
             "style {none, callback, derived class}; inside every case REAL files are written and read through all transports: StringIO, "
             "open text file, str path and Path with compression in {False, True, STORED, DEFLATED, BZIP2, LZMA}; the written text must be "
             "the same for all transports (it is the model's save_doc), every loaded tree must be iso to the source (independent Python "
@@ -94,7 +104,7 @@ class Prop:
             meta = rng.choice([None, {"foo": "bar"}, {"str": "s", "t": [1], "kind": {"data_id": 0}}, {"n": 1, "l": [1, "x", None, True], "d": {"a": {}}, "\u00fc": "\u20ac"}])
             i += 1
             if tier == "quick":
-                sel = [combos[i % 9]]
+                sel = [combos[i % 9], combos[(i + 4) % 9]]
             elif i % 5 == 0:
                 sel = combos                                   # all nine (key_map, value_map) pairs
             else:
